@@ -115,6 +115,13 @@ impl TryFrom<&AddCertificate> for CertifiedKeyWrapper {
         } else {
             add.certificate.names.clone()
         };
+        // DNS names compare case-insensitively and rustls hands the SNI over
+        // lower-cased: index the names lower-cased, so that a SAN or an
+        // operator override written with capitals is still served.
+        let overriding_names: Vec<String> = overriding_names
+            .into_iter()
+            .map(|name| name.to_ascii_lowercase())
+            .collect();
 
         let expiration = add
             .expired_at
